@@ -188,5 +188,13 @@ theorem isAlign_stepOp (b : Bag) (op : Op) : (stepOp b op).1.isAlign = b.isAlign
       · rfl
       · rename_i r hr
         exact (removeGapSites_fields hr).2.2.2.1
+  | compress =>
+    simp only [stepOp]
+    split
+    · rfl
+    · split
+      · rfl
+      · rename_i r hr
+        exact (compressBag_fields hr).2.2.2.1
 
 end Gv.Proofs.BagAbs
